@@ -26,6 +26,9 @@ type WaterMark struct {
 	mu      sync.Mutex
 	waiters map[uint64]chan struct{}
 	window  atomic.Value // *watermarkWindow
+	// winMu keeps slot updates/reads (shared) apart from window rebuilds (exclusive),
+	// so a count can never land in, or be read from, a window that was already copied.
+	winMu sync.RWMutex
 }
 
 type watermarkWindow struct {
@@ -137,11 +140,15 @@ func (w *WaterMark) addIndex(index uint64, delta int32) {
 	if index == 0 {
 		return
 	}
-	win := w.ensureWindow(index)
-	offset := index - win.base
-	if offset < uint64(len(win.slots)) {
-		win.slots[offset].Add(delta)
+	w.ensureWindow(index)
+	w.winMu.RLock()
+	win := w.loadWindow()
+	if index >= win.base {
+		if offset := index - win.base; offset < uint64(len(win.slots)) {
+			win.slots[offset].Add(delta)
+		}
 	}
+	w.winMu.RUnlock()
 	w.tryAdvance()
 }
 
@@ -165,13 +172,17 @@ func (w *WaterMark) tryAdvance() {
 			return
 		}
 		next := doneUntil + 1
+		w.winMu.RLock()
 		win := w.loadWindow()
 		if next < win.base || next >= win.base+uint64(len(win.slots)) {
+			w.winMu.RUnlock()
 			w.ensureWindow(next)
 			continue
 		}
 		offset := next - win.base
-		if win.slots[offset].Load() > 0 {
+		pending := win.slots[offset].Load() > 0
+		w.winMu.RUnlock()
+		if pending {
 			return
 		}
 		if atomic.CompareAndSwapUint64(&w.doneUntil, doneUntil, next) {
@@ -208,7 +219,9 @@ func (w *WaterMark) ensureWindow(index uint64) *watermarkWindow {
 	if index >= win.base && index < win.base+uint64(len(win.slots)) {
 		return win
 	}
+	w.winMu.Lock()
 	w.rebuildWindowLocked(index, win)
+	w.winMu.Unlock()
 	return w.loadWindow()
 }
 
